@@ -1,17 +1,26 @@
 // C15 - allocation failure yields an error: never a crash, a leak or wrong code.
 //
 // Fault enumeration on the real library.  For every workload W a clean run counts the arena requests (hook H1),
-// the heap requests (malloc/realloc/calloc, --wrap) and the virtual-memory requests (mmap/mprotect/ftruncate/
-// memfd_create, --wrap) made by asmjit and records the clean outputs.  Then EVERY position k of every class is
-// failed once (bound 1), and pairs of positions are failed together (bound 2, see plan()).  Every injection runs
-// in its own fork()ed child of a parent that never executes asmjit code itself, so a crash / sanitizer report is
-// attributed to exactly one (workload, class, position) and all children start from the same cold process state.
+// the heap requests (malloc/calloc/realloc, ld --wrap) and the virtual-memory requests (mmap/mprotect/ftruncate64/
+// memfd_create, ld --wrap) made by asmjit and records the clean outputs.  Then EVERY position k of every class is
+// failed once (bound 1) and pairs of positions are failed together (bound 2, see main()).  Requests are counted /
+// failed only while the harness has armed the injection around the asmjit calls of the injected attempt.
 //
-// Oracle per injection: no crash / signal / sanitizer report / exception / hang; every API call returned an error
-// or completed; if nothing reported an error the output must equal the clean output; the same objects are then
-// reset (hard reset, reinit() or soft reset) and the work is repeated with faults off -> every call must succeed
-// and the output must equal the clean output; the same on fresh objects; after destruction no heap block, no
-// mapping and no descriptor obtained by asmjit is left; JitAllocator statistics never account a failed add.
+// Every run (clean or injected) executes in its own fork()ed child of a parent that never executes asmjit code
+// itself: a crash / sanitizer report is attributed to exactly one (workload, class, position) and all children start
+// from the same cold process state (first-use paths of VirtMem included).  The child reports through a pipe; its
+// stderr goes to a memfd from which the parent takes the sanitizer report of a dead child.
+//
+// Oracle per injection: no signal / ASan / UBSan report / exception / hang; every API call returned an error or
+// completed; if nothing reported an error the output must equal the clean output (compiler workload and ConstPool:
+// or be proven equivalent by executing the generated function / re-reading every constant); then the SAME objects are
+// recovered (hard reset, reinit()/release, soft reset) and the work is repeated with faults off -> every call must
+// succeed and the output must equal the clean output; the same on fresh objects; after destruction no heap block, no
+// mapping and no memfd obtained by asmjit is left; JitAllocator statistics never account a failed add.
+// The caller either stops at the first reported error or goes on with the next independent call (both enumerated).
+//
+// debugging aids: C15_TRACE=1 (child stderr passes through, every reported error is printed), C15_LOG=<file> (every
+// violating case is appended), C15_DUMP=<file> (clean vs. actual dump of a completed-but-different attempt).
 #include "vh.h"
 #include <asmjit/core.h>
 #include <asmjit/x86.h>
@@ -856,12 +865,11 @@ struct ArenaRawScript : ArenaScript {
     live.clear();
     // phase 2: soft reset keeps the managed blocks; a request larger than the kept blocks walks over them
     arena.reset(ResetPolicy::kSoft);
-    // (a request that skips some kept blocks and then fits into a later one is not part of this script: that path
-    //  leaves a dangling block link even without any failure, which is outside this property)
     S("alloc_oneshot", one(200));
+    S("alloc_oneshot", one(7000));             // skips the small kept blocks, fits into a later one
     S("alloc_oneshot", one(16));
     S("alloc_reusable", reu(2048, false));
-    S("alloc_oneshot", one(40000));
+    S("alloc_oneshot", one(40000));            // larger than every kept block: all of them are skipped, then malloc
     S("alloc_oneshot", one(304));
     S("alloc_oneshot_zeroed", (arena.alloc_oneshot_zeroed<uint8_t>(256) ? Error::kOk : Error::kOutOfMemory));
     const char* d = static_cast<const char*>(arena.dup("duplicate-me", 12, true));
